@@ -17,6 +17,9 @@
 #include "world_builder/features/oceanic_plate_models/temperature/half_space_model.h"
 #include "world_builder/features/feature_utilities.h"
 #include "world_builder/coordinate_systems/spherical.h"
+#include "world_builder/features/oceanic_plate_models/composition/tian2019_water_content.h"
+#include "world_builder/features/subducting_plate_models/composition/tian2019_water_content.h"
+#include "world_builder/features/subducting_plate_models/temperature/mass_conserving.h"
 using namespace H;
 namespace PM = WorldBuilder::Features::PlumeModels;
 namespace { unsigned n_coordinates = 0; }
@@ -175,6 +178,40 @@ extern "C" void h_c12_depth_method(void)
       const int dm = c->depth_method();
       sym_assert(dm == angle_at_starting_point_with_surface || dm == angle_at_begin_segment_with_surface || dm == angle_at_begin_segment_applied_to_end_segment_with_surface,
                  "an accepted depth method option leaves a defined, supported depth method");
+    }
+  sym_reach("end");
+}
+
+// string-valued options that the schema does not restrict to an enumeration: every value must either be rejected or leave a defined state
+extern "C" void h_c12_string_option(unsigned long which)
+{
+  World *w = make_world(0);
+  std::vector<Point<2>> coords(3, Point<2>(0, 0, cartesian));
+  prm.set_len("<inner>", 2);
+  bool threw = false; int value = -1;
+  if (which == 0)
+    {
+      prm.set_options("lithology", "peridotite", "gabbro", "sediment", "basalt");       // the last one is not a supported lithology
+      auto *m = new Features::OceanicPlateModels::Composition::TianWaterContent(w);
+      try { m->parse_entries(w->parameters, coords); } catch (...) { threw = true; }
+      if (!threw) value = m->lithology_type;
+      if (!threw) sym_assert(value >= 0 && value <= 3, "an accepted lithology option leaves a defined, supported lithology");
+    }
+  else if (which == 1)
+    {
+      prm.set_options("lithology", "MORB", "gabbro", "sediment", "basalt");
+      auto *m = new Features::SubductingPlateModels::Composition::TianWaterContent(w);
+      try { m->parse_entries(w->parameters); } catch (...) { threw = true; }
+      if (!threw) value = m->lithology_type;
+      if (!threw) sym_assert(value >= 0 && value <= 3, "an accepted lithology option leaves a defined, supported lithology");
+    }
+  else
+    {
+      prm.set_options("reference model name", "half space model", "plate model", "cooling model");       // the last one is not a supported reference model
+      auto *m = new Features::SubductingPlateModels::Temperature::MassConserving(w);
+      try { m->parse_entries(w->parameters); } catch (...) { threw = true; }
+      if (!threw) value = m->reference_model_name;
+      if (!threw) sym_assert(value >= 0 && value <= 1, "an accepted reference model option leaves a defined, supported reference model");
     }
   sym_reach("end");
 }
